@@ -210,6 +210,7 @@ type c45Case struct {
 	Fusion  int        `json:"fusion"` // 0 stateless(default) 1 none 2 aggressive
 	ChanCap int        `json:"chan_cap,omitempty"`
 
+	sysName  string          // actor system the case ran on (key of its captured runtime log)
 	mons     []*c45Mon       // per real stage (source and flows), set by run
 	aliveAtVerdict []bool    // per real stage: actor alive when a stuck verdict was taken
 	batchIdx []int           // per stage group: real stage index of its Batch stage (0 = none)
@@ -716,6 +717,16 @@ func (c *c45Case) rootCause(o c45Outcome) (labels []string, facts []string) {
 			facts = append(facts, fmt.Sprintf("group %d Batch(%d): elements in=%d, batches out=%d carrying %d elements, largest batch=%d, demand received=%d, upstream completed=%v: %s", g, s.N, in, outBatches, outElems, maxLen, demand, completed, strings.Join(why, "; ")))
 		}
 	}
+	if early == 0 {
+		// a stage the monitors cannot see (fused) that handled a stream message before
+		// its stageWire calls Tell(nil, ...): the runtime logs that stage's failure
+		if v, ok := c45Logs.Load(c.sysName); ok {
+			if hits := v.(*c45Logger).matching("nil pointer dereference", "invalid memory address"); len(hits) > 0 {
+				early = int64(len(hits))
+				facts = append(facts, fmt.Sprintf("the runtime logged %d stage failure(s) with a nil dereference (a stage handled a stream message before its stageWire): %s", len(hits), hits[0]))
+			}
+		}
+	}
 	if early > 0 {
 		labels = append(labels, "msg-before-wire")
 	}
@@ -871,6 +882,7 @@ func c45Await(h StreamHandle, o *c45Outcome) {
 // run materializes and runs the case once.
 func (c *c45Case) run(sys actor.ActorSystem) c45Outcome {
 	var o c45Outcome
+	c.sysName = sys.Name()
 	stop := make(chan struct{})
 	defer close(stop)
 	src := c.source(stop)
@@ -1251,9 +1263,54 @@ func c45Uniq(xs []string) []string {
 	return out
 }
 
+// c45Logger keeps the runtime's own warnings and errors (everything else is
+// discarded): the supervision path logs a failing stage actor with its panic text,
+// which is the only trace of a stage that the materializer fused (fused stages are
+// not wrapped by a c45Mon).
+type c45Logger struct {
+	log.Logger
+	mu    sync.Mutex
+	lines []string
+}
+
+func (l *c45Logger) add(s string) {
+	l.mu.Lock()
+	if len(l.lines) < 200 {
+		l.lines = append(l.lines, s)
+	}
+	l.mu.Unlock()
+}
+func (l *c45Logger) Warn(a ...any)             { l.add(fmt.Sprint(a...)) }
+func (l *c45Logger) Warnf(f string, a ...any)  { l.add(fmt.Sprintf(f, a...)) }
+func (l *c45Logger) Error(a ...any)            { l.add(fmt.Sprint(a...)) }
+func (l *c45Logger) Errorf(f string, a ...any) { l.add(fmt.Sprintf(f, a...)) }
+func (l *c45Logger) With(...any) log.Logger    { return l }
+func (l *c45Logger) matching(subs ...string) []string {
+	l.mu.Lock()
+	defer l.mu.Unlock()
+	var out []string
+	for _, ln := range l.lines {
+		for _, sub := range subs {
+			if strings.Contains(ln, sub) {
+				if len(ln) > 400 {
+					ln = ln[:400]
+				}
+				out = append(out, ln)
+				break
+			}
+		}
+	}
+	return out
+}
+
+// c45Logs maps an actor system (by name) to its capturing logger.
+var c45Logs sync.Map
+
 func c45NewSystem(t *testing.T) actor.ActorSystem {
 	name := fmt.Sprintf("c45sys%d", time.Now().UnixNano())
-	sys, err := actor.NewActorSystem(name, actor.WithLogger(log.DiscardLogger), actor.WithShutdownTimeout(30*time.Second))
+	lg := &c45Logger{Logger: log.DiscardLogger}
+	c45Logs.Store(name, lg)
+	sys, err := actor.NewActorSystem(name, actor.WithLogger(lg), actor.WithShutdownTimeout(30*time.Second))
 	if err != nil {
 		t.Fatalf("NewActorSystem: %v", err)
 	}
